@@ -79,7 +79,8 @@ func (x *Exec) call(st *State, e *ast.CallExpr) []Val {
 			if v.IsSlice() {
 				ref = v.Arr
 			}
-			return []Val{{Typ: types.Typ[types.Bool], T: x.c.And(x.c.Neq(ref, x.c.Int(0)), x.c.Not(x.c.Select(al, ref)))}}
+			now := x.heapGet(st, "alloc", SArr(SInt, SBool))
+			return []Val{{Typ: types.Typ[types.Bool], T: x.c.And(x.c.Neq(ref, x.c.Int(0)), x.c.Not(x.c.Select(al, ref)), x.c.Select(now, ref))}}
 		case "sameArray":
 			a := x.expr(st, e.Args[0])
 			b := x.expr(st, e.Args[1])
@@ -595,6 +596,14 @@ func (x *Exec) callContract(st *State, con *Contract, recv *Val, args []Val, e *
 		for _, mc := range con.Modifies {
 			x.havocModifies(st, pre, mc)
 		}
+	}
+	// the callee may allocate: allocation grows monotonically
+	{
+		cur := x.heapGet(st, "alloc", SArr(SInt, SBool))
+		na := c.Fresh("call_alloc", cur.sort)
+		r := c.Bound("r", SInt)
+		x.assumeGlobal(st, c.Forall([]*Term{r}, c.Implies(c.Select(cur, r), c.Select(na, r)), []*Term{c.Select(na, r)}))
+		st.heap["alloc"] = na
 	}
 	// results
 	var results []Val
